@@ -17,6 +17,7 @@ static CaseResult run(const RunCtx &ctx, const Tape &tape, Tape &canon) {
     size_t cfg;
     if (ctx.prop == "C07") cfg = VF_STATIC_REC_CFGS[t.below(sizeof(VF_STATIC_REC_CFGS) / sizeof(int))];
     else cfg = t.below(VF_STATIC_NCFG);
+    if (ctx.mode == "mem" && t.chance(1, 2)) size_hint = std::min(size_hint, 12u); // C17: boundary sizes (n = 1, 2, 3) every other case
     CaseResult r = TABLES[kt][cfg](ctx, t, size_hint);
     canon = t.canon();
     return r;
